@@ -192,6 +192,11 @@ def worker(case):
         pA = zckref.parse(A) if A else None
         files = {"B.zck": B}
         L = []
+        # every third scenario with the application's own callbacks chained behind the library's (header download included)
+        chained = int(core.h8([case["name"], case["tkind"], case["frag"]]), 16) % 3 == 0
+        if chained:
+            L.append("chain 1")
+            stats["updates_with_application_callbacks_chained"] = 1
         if A:
             files["A.zck"] = A
             L += ["fopen 2 A.zck r source", "create 2", "init_read 2 2"]
